@@ -97,7 +97,7 @@ PROP = dict(
     rule="operation sequences: the first ranked individual changes at least once after the first one and some add/add_all "
          "hits dedup or truncation (size after < size before + incoming); whole runs: the best known changes at least once; "
          "seeded VRP solves: the result is strictly better than the initial solution, which has at least 2 tours; "
-         "distinct = SHA-256 of the canonical case input",
+         "distinct = SHA-256 of the canonical case input The scripted evolution runs call with_initial / with_init_solutions in both orders.",
     modelled="Greedy::{add,add_all,select,ranked,size}; Elitism::{add,add_all,add_with_iter,sort,dedup,truncate,is_improved,"
              "on_generation,select}; Rosomaxa::{add,add_all,is_comparable_with_best_known,update_phase,select,ranked,size,"
              "selection_phase} (elite + phase machine); TelemetryHeuristicContext::{on_initial,on_generation} and the result of "
